@@ -12,7 +12,7 @@ import (
 
 // Ty is a field type of the grammar.
 type Ty struct {
-	K     string // int int8 int64 uint64 bool string myint mystr time dur bytes ptr slice seq array map func chan any iface ifacelit opt tparam struct tuple2 money amoney pt index
+	K     string // int int8 int64 uint64 bool string myint mystr time dur bytes ptr slice seq array map func chan any iface ifacelit opt tparam struct tuple2 money amoney pt index mid
 	Elem  *Ty
 	Name  string   // tparam: parameter name; struct: struct name
 	TArgs []string // struct: instantiation arguments (concrete source), empty for non-generic
@@ -40,6 +40,8 @@ var basicSrc = map[string]string{
 	"dur": "stdtime.Duration", "amoney": "dp.Money",
 	// a named struct without annotations or declared instances, exported and unexported fields (lib.go.txt)
 	"index": "ZzIndex",
+	// a named struct without annotations that nests ZzIndex (lib.go.txt)
+	"mid": "ZzMid",
 }
 
 // Src is the Go source of the type; sub substitutes type parameters (nil: keep their names).
@@ -161,6 +163,8 @@ func (t *Ty) GenExpr(st *Struct) string {
 		return "func(r *zzRng) dp.Money { return dp.Money(r.Intn(1000)) }"
 	case "index":
 		return "zzGenIndex"
+	case "mid":
+		return "zzGenMid"
 	case "bytes":
 		return "zzBytes"
 	case "any":
